@@ -61,7 +61,7 @@ class ExprMixin(object):
         t = tstr.strip()
         if t in ('double', 'float'):
             return to_real(self.scalar(v, n))
-        if t in ('int', 'long', 'size_t', 'std::size_t', 'unsigned long', 'unsigned int'):
+        if t in ('int', 'long', 'size_t', 'std::size_t', 'unsigned long', 'unsigned int', 'unsigned', 'unsigned char', 'uint32_t', 'uint8_t', 'std::uint32_t', 'std::uint8_t'):
             if isinstance(v, EnumV):
                 return v.e
             s = self.scalar(v, n)
@@ -338,6 +338,10 @@ class ExprMixin(object):
 
     def binop(self, op, x, y, n):
         x, y = self.rd(x), self.rd(y)
+        if op in ('|', '&', '^', '<<', '>>') and isE(x) and isE(y) and x.ty in (INT, BOOL) and y.ty in (INT, BOOL):
+            from expr import mk_bitop
+            ci = lambda v: ite(v, 1, 0) if v.ty == BOOL else v
+            return mk_bitop(op, ci(x), ci(y))
         if op == '<<':
             return self.comma_init(x, y, n)
         if isinstance(x, StrTmp) or isinstance(y, StrTmp) or isinstance(x, StrV) or isinstance(y, StrV):
@@ -487,6 +491,9 @@ class ExprMixin(object):
             elif op == '-=': new = old - s
             elif op == '*=': new = old * s
             elif op == '/=': new = self.div(old, s, n)
+            elif op in ('|=', '&=', '^=', '<<=', '>>='):
+                from expr import mk_bitop
+                new = mk_bitop(op[:-1], old, ite(s, 1, 0) if s.ty == BOOL else s)
             else: fail(n, 'compound operator %s' % op)
             self.assign(lv, new)
             return tgt
